@@ -190,6 +190,10 @@ pub struct WorldCfg {
     /// holder's balance can cover (the router never needs one: routes reach it through `Send` or with coins)
     #[serde(default)]
     pub router_allowance: u8,
+    /// every actor grants the NEXT actor (cyclically) an allowance of 2^124 on every asset token and every LP
+    /// token, so that hook swaps and withdrawals can also be delivered through `SendFrom` (spender != owner)
+    #[serde(default)]
+    pub peer_allowance: bool,
 }
 
 #[derive(Clone, Debug)]
@@ -836,6 +840,17 @@ impl World {
                             .execute_contract(h.clone(), t.addr.clone(), &Cw20ExecuteMsg::IncreaseAllowance { spender: s.to_string(), amount: Uint128::new(amount), expires: None }, &[])
                             .map_err(|x| format!("{:#}", x))?;
                     }
+                }
+            }
+        }
+        if cfg.peer_allowance {
+            let toks: Vec<Addr> = w.tokens.iter().map(|t| t.addr.clone()).chain(w.pairs.iter().map(|p| p.lp.clone())).collect();
+            let n = w.actors.len();
+            for t in toks {
+                for i in 0..n {
+                    w.app
+                        .execute_contract(w.actors[i].clone(), t.clone(), &Cw20ExecuteMsg::IncreaseAllowance { spender: w.actors[(i + 1) % n].to_string(), amount: Uint128::new(1u128 << 124), expires: None }, &[])
+                        .map_err(|x| format!("{:#}", x))?;
                 }
             }
         }
